@@ -88,6 +88,10 @@ pub struct How {
     pub owned: bool,
     /// wrap the builder in `PacketBuilder::from` (built-in kinds only)
     pub wrap: bool,
+    /// "probing" construction route: list entries first, padding last, and the observers
+    /// `calculate_size()` / `get_padding()` called between the setter calls (as an application
+    /// that sizes a packet before deciding on its padding does). Observers must not change the outcome.
+    pub probe: bool,
 }
 
 /// Sized adaptor so that the crate's blanket `RtcpPacketWriterExt::write_into`
@@ -252,63 +256,103 @@ pub fn construct<'a, V: Visit<'a>>(
             }
         }};
     }
+    // observer calls between setters (probing route only)
+    macro_rules! pr {
+        ($b:expr) => {{
+            let b = $b;
+            if how.probe {
+                let _ = b.calculate_size();
+                let _ = b.get_padding();
+            }
+            b
+        }};
+    }
+    // in the probing route the padding is set last, after a probe
+    let pad_first = !how.probe;
     match cfg {
         Cfg::Sr { ssrc, ntp, rtp, pc, oc, blocks, padding } => {
-            let mut b = SenderReport::builder(*ssrc)
-                .padding(*padding)
-                .ntp_timestamp(*ntp)
-                .rtp_timestamp(*rtp)
-                .packet_count(*pc)
-                .octet_count(*oc);
+            let mut b = SenderReport::builder(*ssrc);
+            if pad_first {
+                b = b.padding(*padding);
+            }
+            b = b.ntp_timestamp(*ntp).rtp_timestamp(*rtp).packet_count(*pc).octet_count(*oc);
             for rb in blocks {
-                b = b.add_report_block(mk_rb(rb));
+                b = pr!(b.add_report_block(mk_rb(rb)));
+            }
+            if !pad_first {
+                b = pr!(pr!(b).padding(*padding));
             }
             out!(b)
         }
         Cfg::Rr { ssrc, blocks, padding } => {
-            let mut b = ReceiverReport::builder(*ssrc).padding(*padding);
+            let mut b = ReceiverReport::builder(*ssrc);
+            if pad_first {
+                b = b.padding(*padding);
+            }
             for rb in blocks {
-                b = b.add_report_block(mk_rb(rb));
+                b = pr!(b.add_report_block(mk_rb(rb)));
+            }
+            if !pad_first {
+                b = pr!(pr!(b).padding(*padding));
             }
             out!(b)
         }
         Cfg::Sdes { chunks, padding } => {
-            let mut b = Sdes::builder().padding(*padding);
+            let mut b = Sdes::builder();
+            if pad_first {
+                b = b.padding(*padding);
+            }
             for c in chunks {
-                b = b.add_chunk(mk_chunk(c, how.owned));
+                b = pr!(b.add_chunk(mk_chunk(c, how.owned)));
+            }
+            if !pad_first {
+                b = pr!(pr!(b).padding(*padding));
             }
             out!(b)
         }
         Cfg::Bye { sources, reason, padding } => {
-            let mut b = Bye::builder().padding(*padding);
+            let mut b = Bye::builder();
+            if pad_first {
+                b = b.padding(*padding);
+            }
             for s in sources {
-                b = b.add_source(*s);
+                b = pr!(b.add_source(*s));
             }
             if how.owned {
-                let b = if reason.is_empty() { b.reason_owned("") } else { b.reason_owned(reason.as_str()) };
+                let mut b = if reason.is_empty() { b.reason_owned("") } else { b.reason_owned(reason.as_str()) };
+                if !pad_first {
+                    b = pr!(pr!(b).padding(*padding));
+                }
                 out!(b)
             } else {
                 if !reason.is_empty() {
                     b = b.reason(reason.as_str());
                 }
+                if !pad_first {
+                    b = pr!(pr!(b).padding(*padding));
+                }
                 out!(b)
             }
         }
         Cfg::App { ssrc, subtype, name, data, padding } => {
-            out!(App::builder(*ssrc, name.as_str()).padding(*padding).subtype(*subtype).data(data))
+            if pad_first {
+                out!(App::builder(*ssrc, name.as_str()).padding(*padding).subtype(*subtype).data(data))
+            } else {
+                out!(pr!(pr!(pr!(App::builder(*ssrc, name.as_str())).data(data)).subtype(*subtype)).padding(*padding))
+            }
         }
         Cfg::Fb { kind, sender, media, fci, padding } => {
             let idx = *next;
             *next += 1;
             match (kind, how.owned) {
-                (FbKind::Transport, false) => out!(TransportFeedback::builder(fcis[idx].as_dyn())
+                (FbKind::Transport, false) => out!(pr!(pr!(TransportFeedback::builder(fcis[idx].as_dyn())
                     .sender_ssrc(*sender)
-                    .media_ssrc(*media)
-                    .padding(*padding)),
-                (FbKind::Payload, false) => out!(PayloadFeedback::builder(fcis[idx].as_dyn())
+                    .media_ssrc(*media))
+                .padding(*padding))),
+                (FbKind::Payload, false) => out!(pr!(pr!(PayloadFeedback::builder(fcis[idx].as_dyn())
                     .sender_ssrc(*sender)
-                    .media_ssrc(*media)
-                    .padding(*padding)),
+                    .media_ssrc(*media))
+                .padding(*padding))),
                 (FbKind::Transport, true) => {
                     let b = match fci {
                         Fci::Nack(l) => TransportFeedback::builder_owned(mk_nack(l)),
@@ -319,7 +363,7 @@ pub fn construct<'a, V: Visit<'a>>(
                         }
                         Fci::Fir(l) => TransportFeedback::builder_owned(mk_fir(l)),
                     };
-                    out!(b.sender_ssrc(*sender).media_ssrc(*media).padding(*padding))
+                    out!(pr!(pr!(b.sender_ssrc(*sender).media_ssrc(*media)).padding(*padding)))
                 }
                 (FbKind::Payload, true) => {
                     let b = match fci {
@@ -331,12 +375,16 @@ pub fn construct<'a, V: Visit<'a>>(
                         }
                         Fci::Fir(l) => PayloadFeedback::builder_owned(mk_fir(l)),
                     };
-                    out!(b.sender_ssrc(*sender).media_ssrc(*media).padding(*padding))
+                    out!(pr!(pr!(b.sender_ssrc(*sender).media_ssrc(*media)).padding(*padding)))
                 }
             }
         }
         Cfg::Unknown { pt, count, data, padding } => {
-            out!(Unknown::builder(*pt, data).padding(*padding).count(*count))
+            if pad_first {
+                out!(Unknown::builder(*pt, data).padding(*padding).count(*count))
+            } else {
+                out!(pr!(pr!(pr!(Unknown::builder(*pt, data)).count(*count)).padding(*padding)))
+            }
         }
         Cfg::Custom { pt, min, count, body, padding } => {
             // (pt,min) outside the family never leaves the generators; fall back to <255,4>
@@ -359,8 +407,8 @@ pub fn construct<'a, V: Visit<'a>>(
             let mut cb = Compound::builder();
             for m in members {
                 // nested members keep `owned`, never `wrap` a compound
-                let h = How { owned: how.owned, wrap: how.wrap && !m.is_compound() };
-                cb = construct(m, h, fcis, next, AddTo(cb));
+                let h = How { owned: how.owned, wrap: how.wrap && !m.is_compound(), probe: how.probe };
+                cb = pr!(construct(m, h, fcis, next, AddTo(cb)));
             }
             v.visit(cb)
         }
@@ -377,11 +425,35 @@ pub fn with_writer<R>(cfg: &Cfg, how: How, f: impl FnOnce(&DynW) -> R) -> R {
         make_fcis(cfg, &mut fcis);
     }
     let mut next = 0;
-    let h = How { owned: how.owned, wrap: how.wrap && !cfg.is_compound() };
-    let w = construct(cfg, h, &fcis, &mut next, BoxIt);
-    let r = f(&DynW(&*w));
-    drop(w);
+    let h = How { owned: how.owned, wrap: how.wrap && !cfg.is_compound(), probe: how.probe };
+    // the setter (and probe) calls are calls into the crate too: observed, so that a panic in one
+    // is attributed to the crate and surfaces as a panicking writer
+    let built = call(|| construct(cfg, h, &fcis, &mut next, BoxIt));
+    let r = match built {
+        Ok(w) => {
+            let r = f(&DynW(&*w));
+            drop(w);
+            r
+        }
+        Err(p) => f(&DynW(&ConstructionPanicked(p))),
+    };
     r
+}
+
+/// Stand-in writer for a builder whose construction (a setter or an observer call between
+/// setters) unwound: every operation unwinds again, naming the original site.
+#[derive(Debug)]
+struct ConstructionPanicked(Panicked);
+impl RtcpPacketWriter for ConstructionPanicked {
+    fn calculate_size(&self) -> Result<usize, RtcpWriteError> {
+        panic!("builder construction panicked at {}: {}", short_site(&self.0.site), self.0.msg)
+    }
+    fn write_into_unchecked(&self, _buf: &mut [u8]) -> usize {
+        panic!("builder construction panicked at {}: {}", short_site(&self.0.site), self.0.msg)
+    }
+    fn get_padding(&self) -> Option<u8> {
+        None
+    }
 }
 
 #[derive(Debug, PartialEq, Eq)]
